@@ -286,7 +286,7 @@ theorem sumGo_eq (acc : ℝ) (l : List ℝ) : sumGo acc l = acc + l.sum := by
 theorem sum_eq (l : List ℝ) : sum l = l.sum := by simp [sum, sumGo_eq]
 
 theorem fmax_eq (a b : ℝ) : fmax a b = max a b := by
-  simp only [fmax, lt_eq, decide_eq_true_eq]
+  simp only [fmax, isNaN_eq, Bool.false_eq_true, if_false, lt_eq, decide_eq_true_eq]
   split
   · rename_i h; rw [max_eq_right h.le]
   · rename_i h; rw [max_eq_left (not_lt.1 h)]
